@@ -308,6 +308,32 @@ pub fn run(ctx: &Ctx) -> i32 {
             }
         }
     });
+    // (E2) tiny own reach x extreme exponents: ladders on which the average-strategy normaliser is
+    // a denormal after one iteration
+    let ladders = [crate::universe::ladder(10, 10), crate::universe::ladder(30, 2), crate::universe::ladder(60, 2), crate::universe::deep_chain(40)];
+    let extreme_g = [
+        ParamSpec::Tuple(RefParams { a: 1e3, b: 1e3, g: 1e3, w: 0.0 }),
+        ParamSpec::Tuple(RefParams { a: 1.5, b: 0.0, g: 1e3, w: f64::INFINITY }),
+        ParamSpec::Tuple(RefParams { a: f64::INFINITY, b: f64::INFINITY, g: 900.0, w: 0.0 }),
+        ParamSpec::Tuple(RefParams { a: -1e3, b: -1e3, g: 0.5, w: -1e3 }),
+        ParamSpec::Default,
+    ];
+    ladders.par_iter().for_each(|tree| {
+        for spec in extreme_g {
+            for method in METHODS {
+                for budget in [1u64, 2, 3] {
+                    for threshold in [0.0, f64::INFINITY] {
+                        for threads in [1usize, 2] {
+                            let case = Case { tree: tree.clone(), method, spec, budget, threshold, threads, seed: ctx.seed };
+                            check_case(ctx, &case);
+                            ctx.case(budget, true);
+                            ctx.count("ladder_cases_(tiny_reach_x_extreme_exponents)", 1);
+                        }
+                    }
+                }
+            }
+        }
+    });
     // (F) every schedule (loom) of the worker tasks of all three multi-threaded solvers on the
     // collision games: no panic, no error, no deadlock under any interleaving
     if crate::multi::loom_available() {
